@@ -59,7 +59,7 @@ def run(tier: str, seed: int) -> int:
                                       "shape": geom.make_array(kind, els)}).set_geometry("shape")
                 tb = df.geometry.array.total_bounds
                 for inparts in ([1, 3] if quick else [1, 2, 3]):
-                    mode = rng.choice(["plain", "filtered", "sorted", "touched-filtered"])
+                    mode = rng.choice(["plain", "filtered", "sorted", "touched-filtered", "repacked", "repacked-filtered"])
                     src = df
                     if mode == "sorted":
                         hd = df.geometry.hilbert_distance(total_bounds=tb, p=10)
@@ -70,7 +70,16 @@ def run(tier: str, seed: int) -> int:
                         # the parent's partition bounds / index are cached BEFORE rows are filtered away (incl. the extreme ones)
                         ddf.partition_sindex  # noqa: B018
                         _ = ddf.cx[0:1, 0:1]
-                    if mode in ("filtered", "touched-filtered"):
+                    if mode in ("repacked", "repacked-filtered"):
+                        # the input was packed before (other p, other partition count): it is already indexed by a column called
+                        # hilbert_distance whose values are NOT the distances asked for now
+                        try:
+                            first = ddf.pack_partitions(npartitions=min(2, inparts), p=7)
+                            first.compute()
+                            ddf = first
+                        except Exception:  # noqa: BLE001
+                            mode = "plain" if mode == "repacked" else "filtered"
+                    if mode in ("filtered", "touched-filtered", "repacked-filtered"):
                         drop = set(list(src["id"])[:max(1, len(src) // 3)])       # empties the first input partition(s)
                         ddf = ddf[~ddf["id"].isin(drop)]
                         kept = [i for i in kept if i not in drop]
@@ -93,6 +102,9 @@ def run(tier: str, seed: int) -> int:
                             allrows = pd.concat(parts)
                             if allrows.index.name != "hilbert_distance":
                                 chk.violation(f"indexname|{kind}", f"index name {allrows.index.name!r}; {info}", "", ctx=dict(site="pack_partitions", mode="indexname"))
+                            if list(allrows.columns) != list(sub.columns):
+                                chk.violation(f"columns|{kind}|{mode}", f"pack_partitions changed the columns: {list(allrows.columns)}, input {list(sub.columns)}; {info}", "",
+                                              ctx=dict(site="pack_partitions", mode="columns"))
                             # whole rows intact
                             back = allrows.reset_index(drop=True).sort_values("id")
                             ref = sub.sort_values("id")
